@@ -37,6 +37,7 @@ ASSUMPTIONS = [
     "GCXS/DOK operands are converted by asformat(COO); that conversion is property C05's subject",
 ]
 
+IMPORTS = "From Verif Require Import Py Shape COO GCXS SArr NpSort SortSearch C10Judge."
 VALUES = list(range(-3, 6))
 FILLS = [-4, 0, 2, 6]
 CLAUSES = {
@@ -400,7 +401,7 @@ def campaign(build, tier, seed, report, budget=1):
         out = "None" if "ri" not in r else f"(Some {vpair(vlist(r['ri']), vlist(r['data']))})"
         lits.append(vpair(vlist(c[0]), vlist(c[1]), vlist(c[2]), vZ(c[3]), vZ(c[4]), vbool(c[5]), out))
         tag("kernel:_sort_coo")
-    bad = build.judge("c10_sortk", "From Verif Require Import C10Judge.", "sortk_case", "judge_sortk", lits)
+    bad = build.judge("c10_sortk", IMPORTS, "sortk_case", "judge_sortk", lits)
     for i, code in bad:
         c = sk[i]
         viol.append({"property": "C10", "op": "_sort_coo", "kind": "representation", "clause": None, "code": code,
@@ -414,7 +415,7 @@ def campaign(build, tier, seed, report, budget=1):
         out = "None" if "ri" not in r else f"(Some {vpair(vlist(r['ri']), vlist(r['rd']))})"
         lits.append(vpair(vlist(c[0]), vlist(c[1]), vlist(c[2]), vZ(c[3]), vZ(c[4]), vbool(c[5]), out))
         tag("kernel:_compute_minmax_args")
-    bad = build.judge("c10_minmaxk", "From Verif Require Import C10Judge.", "minmaxk_case", "judge_minmaxk", lits)
+    bad = build.judge("c10_minmaxk", IMPORTS, "minmaxk_case", "judge_minmaxk", lits)
     for i, code in bad:
         c = mk[i]
         viol.append({"property": "C10", "op": "_compute_minmax_args", "kind": "representation", "clause": None, "code": code,
@@ -436,7 +437,7 @@ def campaign(build, tier, seed, report, budget=1):
         lits.append(vpair(vlib.spec_coo_lit(spec), op_lit(op), res_lit(r)))
         tag(*tags_of(spec, op))
         tag("format:" + spec.get("format", "coo"))
-    bad = build.judge("c10_api", "From Verif Require Import C10Judge.", "api_case", "judge_api", lits, chunk=400)
+    bad = build.judge("c10_api", IMPORTS, "api_case", "judge_api", lits, chunk=400)
     codes = {}
     for i, code in bad:
         spec, op, r = flat[i]
